@@ -1,5 +1,62 @@
-"""Ties of the Coq models of C08 to the compiled code (filled in below)."""
+"""Tie of the NPD header model (coq/Files/NpdScan.v hrun/header_result) to _vnadata_load_npd: for the
+generated NPD spellings (shuffled header lines, legacy rows/columns) the model's (ports, frequencies,
+number of parameters) must be what vnadata_fload produced."""
+import re
+
+import c06_ties
 
 
-def run(ctx, files, broken):
-    pass
+def run(ctx, files, broken, info=None, results=None):
+    if not info:
+        return
+    body = ["Require Import List Bool Arith.", "Require Import LV.Files.NpdScan.", "Import ListNotations."]
+    rows = []
+    for cid, (kind, truth, sp, text, name) in info.items():
+        if kind != "npd":
+            continue
+        hl = []
+        ok = True
+        for ln in text.split("\n"):
+            m = re.match(r"^\s*#:([a-z0-9]+)\s*(.*)$", ln)
+            if not m:
+                continue
+            k, rest = m.group(1), re.sub(r"\s#.*$", "", m.group(2)).split()
+            if k == "version":
+                hl.append("HVersion %s" % ("true" if rest[:1] == ["1.0"] else "false"))
+            elif k in ("ports", "rows", "columns", "frequencies", "fprecision", "dprecision"):
+                hl.append("H%s %s" % (k.capitalize(), rest[0]))
+            elif k == "parameters":
+                ents = [c06_ties.entry_term(e) for e in ",".join(rest).split(",")]
+                if any(e is None for e in ents):
+                    ok = False
+                hl.append("HParameters %s" % c06_ties.coq_list(["(%s)" % e for e in ents if e]))
+            elif k == "z0":
+                pass             # not in the model (must follow the port count)
+        lines = results.get(cid) or []
+        dump = [l for l in lines if l.startswith("DUMP")]
+        load = [l for l in lines if l.startswith("LOAD")]
+        if not ok or not dump or not load or not load[0].startswith("LOAD 0"):
+            continue
+        h = dump[0].split("|")[0].split()
+        rows.append((cid, int(h[3]), int(h[4]), len(h[9].split(",")) if len(h) > 9 else 0))
+        body.append("Eval vm_compute in (match header_result (hrun %s) with Some (p, f, l) => (p, f, length l) | None => (999, 999, 999) end)."
+                    % c06_ties.coq_list(["(%s)" % x for x in hl]))
+    if not rows:
+        return
+    rc, cout, cerr = ctx.coq_eval("npd_header_cases", "\n".join(body) + "\n", timeout=600)
+    if rc != 0:
+        ctx.obligation("tie:npd_header_model", False, "model evaluation failed: " + cerr[-300:])
+        broken.append("NPD header model cannot be evaluated: " + cerr[-300:])
+        return
+    blocks = re.findall(r"=\s*\((\d+),\s*(\d+),\s*(\d+)\)", cout)
+    bad = 0
+    for (cid, cols, nf, nparam), (mp, mf, ml) in zip(rows, blocks):
+        ctx.traces_validated += 1
+        if (int(mp), int(mf), int(ml)) != (cols, nf, nparam):
+            bad += 1
+            if bad <= 3:
+                ctx.violation({"kind": "disagreement", "op": "npd_header", "class": "model_vs_c"},
+                              "NPD header of %s: loader gives ports %d, frequencies %d, %d parameters; model %s %s %s"
+                              % (cid, cols, nf, nparam, mp, mf, ml), {"file": info[cid][3]})
+    ctx.obligation("tie:npd_header_model", bad == 0 and len(blocks) == len(rows), "%d of %d differ" % (bad, len(rows)))
+    ctx.extra["npd_header_cases"] = len(rows)
